@@ -58,6 +58,10 @@ pub struct ReqSpec {
     pub root_path: bool,
     /// the caller supplies its own Host header (name-based virtual hosting: another name than the URI's)
     pub custom_host: bool,
+    /// the request's version is HTTP/1.0 (carried over an HTTP/1.1 connection)
+    pub h10: bool,
+    /// the body does not announce its length (streamed; chunked encoding on HTTP/1.1)
+    pub unsized_body: bool,
 }
 
 #[derive(Clone, Debug)]
@@ -106,7 +110,7 @@ async fn do_request(mut svc: ClientSvc, spec: ReqSpec, obs: Obs) {
     let mut b = http::Request::builder()
         .method(if spec.post { "POST" } else { "GET" })
         .uri(uri)
-        .version(if spec.h2 { http::Version::HTTP_2 } else { http::Version::HTTP_11 })
+        .version(if spec.h2 { http::Version::HTTP_2 } else if spec.h10 { http::Version::HTTP_10 } else { http::Version::HTTP_11 })
         .header("x-id", spec.id.to_string());
     if spec.custom_host {
         b = b.header("host", format!("tenant-{}.example", spec.id));
@@ -114,7 +118,8 @@ async fn do_request(mut svc: ClientSvc, spec: ReqSpec, obs: Obs) {
     if spec.upgrade {
         b = b.header(http::header::UPGRADE, "test-proto").header(http::header::CONNECTION, "upgrade");
     }
-    let req = b.body(ChunkBody::from_vecs(spec_body(&spec))).unwrap();
+    let body = ChunkBody::from_vecs(spec_body(&spec));
+    let req = b.body(if spec.unsized_body { body.unsized_len() } else { body }).unwrap();
     let r = match std::future::poll_fn(|cx| svc.poll_ready(cx)).await {
         Ok(()) => svc.call(req).await,
         Err(e) => Err(e),
@@ -328,7 +333,7 @@ pub fn run_one(scn: &Scn, schedule: &[usize]) -> Execution<Outcome> {
 }
 
 fn r(id: u32, origin: char, h2: bool, post: bool, chunks: u8) -> ReqSpec {
-    ReqSpec { id, origin, h2, post, chunks, upgrade: false, root_path: false, custom_host: false }
+    ReqSpec { id, origin, h2, post, chunks, upgrade: false, root_path: false, custom_host: false, h10: false, unsized_body: false }
 }
 
 pub fn scenarios(thorough: bool) -> Vec<Scn> {
@@ -342,12 +347,22 @@ pub fn scenarios(thorough: bool) -> Vec<Scn> {
         mk("two-origins-h1", vec![], vec![r(1, 'a', false, true, 1), r(2, 'b', false, true, 2)], 1024, true),
         mk("h1-small-buffer", vec![], vec![r(1, 'a', false, true, 2), r(2, 'a', false, true, 2)], 16, false),
         mk("h2-small-buffer", vec![], vec![r(1, 'a', true, true, 2), r(2, 'a', true, true, 2)], 16, false),
-        mk("upgrade-then-normal", vec![ReqSpec { id: 9, origin: 'a', h2: false, post: false, chunks: 0, upgrade: true, root_path: false, custom_host: false }], vec![r(1, 'a', false, true, 1)], 1024, false),
+        mk("upgrade-then-normal", vec![ReqSpec { id: 9, origin: 'a', h2: false, post: false, chunks: 0, upgrade: true, root_path: false, custom_host: false, h10: false, unsized_body: false }], vec![r(1, 'a', false, true, 1)], 1024, false),
         mk("root-path-with-query", vec![], vec![ReqSpec { root_path: true, ..r(1, 'a', false, true, 1) }, ReqSpec { root_path: true, ..r(2, 'a', true, false, 0) }], 1024, false),
         mk("two-origins-preludes", vec![r(8, 'a', false, true, 1), r(9, 'b', false, true, 1)], vec![r(1, 'a', false, true, 1), r(2, 'b', false, true, 1)], 1024, true),
     ];
     // the caller's own Host header (another name than the URI authority)
     v.push(mk("h1-caller-supplied-host", vec![ReqSpec { custom_host: true, ..r(9, 'a', false, true, 1) }], vec![ReqSpec { custom_host: true, ..r(1, 'a', false, true, 1) }, r(2, 'a', false, false, 0)], 1024, false));
+    // request versions below HTTP/1.1 and bodies that do not announce their length: an HTTP/1.0 request is
+    // carried over an HTTP/1.1 connection, a streamed body arrives complete whatever the request's version
+    v.push(mk(
+        "h1-http10-and-unsized-bodies",
+        vec![ReqSpec { h10: true, ..r(9, 'a', false, false, 0) }],
+        vec![ReqSpec { h10: true, unsized_body: true, ..r(1, 'a', false, true, 2) }, ReqSpec { unsized_body: true, ..r(2, 'a', false, true, 2) }],
+        1024,
+        false,
+    ));
+    v.push(mk("h2-unsized-bodies", vec![], vec![ReqSpec { unsized_body: true, ..r(1, 'a', true, true, 2) }, ReqSpec { h10: true, unsized_body: true, ..r(2, 'a', false, true, 1) }], 1024, false));
     // requests that ask for HTTP/2 through a client whose protocol only speaks HTTP/1.1: the first
     // one's attempt is marked as multiplexed, the others wait for it, the connection that comes
     // back cannot be shared
